@@ -238,7 +238,8 @@ C("mako.codegen:_GenerateRenderMethod.write_namespaces.NSDefVisitor.visitDefOrBa
   raises={"CompileException": {"ensures": [("an anonymous block is reported where it begins", "implies(node.is_anonymous, %s)" % _AT_NODE)]}, "*": {}},
   props=["C06", "C11"], native_skip=True,
   note="the visitor class defined inside write_namespaces; `self`, `identifiers` and `export` are the enclosing function's")
-ASSUME("mako.codegen:_GenerateRenderMethod.write_inline_def", params={"self": "GenRM", "node": "TagLike", "identifiers": "Idents", "nested": "Bool=False"},
+ASSUME("mako.codegen:_GenerateRenderMethod.write_inline_def@mako.codegen:_GenerateRenderMethod.write_namespaces.NSDefVisitor.visitDefOrBase",
+       params={"self": "GenRM", "node": "TagLike", "identifiers": "Idents", "nested": "Bool=False"},
        modifies=["heap('f:Printer.')", "heap('set:Str')", "G.emit_n", "G.emit_last", "G.emit_prev", "G.dedents"], raises={"*": {}},
        note="emits the def as a nested function (outside the contracts)")
 
